@@ -322,23 +322,48 @@ func Analyze(k *Kind, fn *ssa.Function, start ssa.Instruction, roots []ssa.Value
 							}
 							return false
 						}
+						isRel := func(bi ssa.Instruction) bool {
+							c, ok := bi.(*ssa.Call)
+							if !ok || !releaseOn(c.Common()) {
+								return false
+							}
+							if c.Common().IsInvoke() && isElem(c.Common().Value) {
+								return true
+							}
+							for _, a := range c.Common().Args {
+								if isElem(a) {
+									return true
+								}
+							}
+							return false
+						}
+						has := false
 						for _, bb := range fn.Blocks {
 							if bb != body && !body.Dominates(bb) {
 								continue
 							}
 							for _, bi := range bb.Instrs {
-								c, ok := bi.(*ssa.Call)
-								if !ok || !releaseOn(c.Common()) {
-									continue
+								if isRel(bi) {
+									has = true
 								}
-								if c.Common().IsInvoke() && isElem(c.Common().Value) {
-									evAt[in] = "release-loop"
+							}
+						}
+						if has {
+							// every iteration must release its element: no path from the body's entry back to
+							// the loop header (or out of the function) that skips the release
+							header := x.Block()
+							again := func(bi ssa.Instruction) bool { return bi == header.Instrs[0] || ssax.IsReturn(bi) }
+							first := body.Instrs[0]
+							found := false
+							if !isRel(first) {
+								if again(first) {
+									found = true
+								} else {
+									_, _, found = (ssax.Search{Target: again, Avoid: isRel}).From(fn, first)
 								}
-								for _, a := range c.Common().Args {
-									if isElem(a) {
-										evAt[in] = "release-loop"
-									}
-								}
+							}
+							if !found {
+								evAt[in] = "release-loop"
 							}
 						}
 					}
